@@ -320,6 +320,8 @@ CORPUS["C10"] = [
 ]
 
 CORPUS["C11"] = [
+    M("distance factor multiplied onto the events-by-frequency array without aligning it with the events", (RADIO, "        EFields[mask] = (EFields[mask].T * distScale).T\n", "        EFields[mask] = EFields[mask] * distScale\n")),
+    B("distance factor aligned with the events by an added axis", (RADIO, "        EFields[mask] = (EFields[mask].T * distScale).T\n", "        EFields[mask] = EFields[mask] * distScale[:, None]\n")),
     M("negative angles zeroed through a flipped view of the argument", (EAS, "        tDec = -tauLorentz * mean_Tau_life * np.log(u)  # seconds", "        bb = np.flip(beta)\n        bb[bb < 0] = 0.0\n        tDec = -tauLorentz * mean_Tau_life * np.log(u)  # seconds")),
     M("argument overwritten with np.copyto", (EAS, "        tDec = -tauLorentz * mean_Tau_life * np.log(u)  # seconds", "        np.copyto(tauBeta, np.minimum(tauBeta, 1.0))\n        tDec = -tauLorentz * mean_Tau_life * np.log(u)  # seconds")),
     B("padded copy of the angles used for nothing but its shape", (EAS, "        tDec = -tauLorentz * mean_Tau_life * np.log(u)  # seconds", "        _n = np.pad(beta, 1).shape[0] - 2\n        tDec = -tauLorentz * mean_Tau_life * np.log(u)  # seconds")),
@@ -464,6 +466,8 @@ CORPUS["C18"] = [
 ]
 
 CORPUS["C19"] = [
+    M("both copies: ratio through the reciprocal of the argument-typed pressure (0 for integer pressures)", (PRESS, "    H[m & x] += T_b[i][m & x] * (1.0 / gmr) * (np.log(P_b[i][m & x] / P[m & x]))", "    H[m & x] += T_b[i][m & x] * (1.0 / gmr) * (np.log(P_b[i][m & x] * np.reciprocal(P[m & x])))"), (ATM, "    H[m & x] += T_b[i][m & x] * (1.0 / gmr) * (np.log(P_b[i][m & x] / P[m & x]))", "    H[m & x] += T_b[i][m & x] * (1.0 / gmr) * (np.log(P_b[i][m & x] * np.reciprocal(P[m & x])))")),
+    B("both copies: ratio through the reciprocal of the pressure made float first", (PRESS, "    H[m & x] += T_b[i][m & x] * (1.0 / gmr) * (np.log(P_b[i][m & x] / P[m & x]))", "    H[m & x] += T_b[i][m & x] * (1.0 / gmr) * (np.log(P_b[i][m & x] * np.reciprocal(P[m & x] * 1.0)))"), (ATM, "    H[m & x] += T_b[i][m & x] * (1.0 / gmr) * (np.log(P_b[i][m & x] / P[m & x]))", "    H[m & x] += T_b[i][m & x] * (1.0 / gmr) * (np.log(P_b[i][m & x] * np.reciprocal(P[m & x] * 1.0)))")),
     B('layer index from pressure: searchsorted over the whole reversed table, clamped at the ground layer', (ATM, '    i = np.zeros_like(P, dtype=int)\n    for j in range(1, len(P_b)):\n        i[P_b[j] >= P] = j\n', '    i = np.maximum(len(P_b) - 1 - np.searchsorted(P_b[::-1], P, side="left"), 0)\n')),
     M('layer index from pressure: whole reversed table, clamped, counted from the right', (ATM, '    i = np.zeros_like(P, dtype=int)\n    for j in range(1, len(P_b)):\n        i[P_b[j] >= P] = j\n', '    i = np.maximum(len(P_b) - 1 - np.searchsorted(P_b[::-1], P, side="right"), 0)\n')),
     B('layer index from altitude: searchsorted over the whole table minus one, clamped, NaN guarded', (ATM, '    i = np.zeros_like(h, dtype=int)\n    for j in range(1, len(H_b)):\n        i[H_b[j] <= h] = j\n', '    i = np.where(np.isnan(h), 0, np.maximum(np.searchsorted(H_b, h, side="right") - 1, 0))\n')),
@@ -496,6 +500,8 @@ CORPUS["C19"] = [
 ]
 
 CORPUS["C20"] = [
+    M("distance factor multiplied onto the events-by-frequency array without aligning it with the events", (RADIO, "        EFields[mask] = (EFields[mask].T * distScale).T\n", "        EFields[mask] = EFields[mask] * distScale\n")),
+    B("distance factor aligned with the events by an added axis", (RADIO, "        EFields[mask] = (EFields[mask].T * distScale).T\n", "        EFields[mask] = EFields[mask] * distScale[:, None]\n")),
     B("energy scaling by einsum", (RADIO, "EFields[mask] = (EFields[mask].T * showerEnergy[mask] / 10.0).T", "EFields[mask] = np.einsum('ij,i->ij', EFields[mask], showerEnergy[mask] / 10.0)")),
     B("frequency sum by einsum", (ANT, "    V_sigsum = np.sum(V_sig, axis=1)", "    V_sigsum = np.einsum('ij->i', V_sig)")),
     M("frequency sum runs over the events", (ANT, "    V_sigsum = np.sum(V_sig, axis=1)", "    V_sigsum = np.sum(V_sig.T, axis=1)")),
